@@ -1,9 +1,212 @@
-(* C15 -- secondary-structure codes follow the DSSP rules.  Statements only. *)
-From Coq Require Import List Arith Bool String.
-Import ListNotations.
-Require Import MD.Gen.DsspTables MD.Dssp.Model MD.Dssp.Proofs.
+(* C15 -- secondary-structure codes follow the DSSP rules on the backbone H-bonds.
+   Statements only, closed by [exact]; vocabulary in Dssp/Rules.v, Dssp/Bridges.v, Dssp/Layer.v.
 
-Theorem update_range_keeps_length : forall A lo hi (f : A -> A) l,
-  List.length (update_range lo hi f l) = List.length l.
-Proof. exact update_range_length. Qed.
-Print Assumptions update_range_keeps_length.
+   The model (Dssp/Model.v) is a transliteration of dssp.cpp / dssp.py.  The theorems below say that
+   its output, for EVERY input (n, chain ids, incomplete-residue mask, H-bond table, bend flags),
+   is what the published DSSP rules prescribe:
+
+     code r            = the model's enum value for residue r      (sec_at (dssp_frame ...) r)
+     turn_at s i       = H-bond NH(i+s) -> CO(i), same chain        ("n-turn at i")
+     minimal_helix s i = turns at i-1 and i                          (first residue i)
+     alpha_at r        = r in [i, i+3] of a minimal 4-helix
+     g_at r / i_at r   = same for 3 / 5 with the emptiness test of the C++ loops spelled out
+     sheet_code r      = E / B / blank from the ladder list
+     plain r           = no helix and no sheet code                                               *)
+From Coq Require Import List Arith Bool String Lia.
+Import ListNotations.
+Require Import MD.Gen.DsspTables MD.Dssp.Model MD.Dssp.Proofs MD.Dssp.Rules MD.Dssp.Bridges MD.Dssp.Layer.
+Local Open Scope string_scope.
+Local Open Scope nat_scope.
+
+(* one code per residue per frame, from the stated alphabets *)
+Theorem one_code_per_residue : forall simp n ch skip hb geom,
+  List.length (compute_dssp simp n ch skip hb geom) = n /\
+  forall c, In c (compute_dssp simp n ch skip hb geom) ->
+    if simp then In c ["H"; "E"; "C"; "NA"] else In c ["H"; "B"; "E"; "G"; "I"; "T"; "S"; " "; "NA"].
+Proof. intros. split; [apply compute_dssp_length | apply codes_alphabet]. Qed.
+Print Assumptions one_code_per_residue.
+
+(* the helix_flags bookkeeping (START / END / START_AND_END / MIDDLE, chain by chain) marks i as the
+   start of an s-turn exactly when the H-bond (i+s -> i) exists inside one chain *)
+Theorem n_turn_flags : forall n ch hb s i, 1 <= s ->
+  is_start (helix_flags n ch hb s) i = turnb n ch hb s i.
+Proof. exact is_start_spec. Qed.
+Print Assumptions n_turn_flags.
+
+Theorem helix_rule : forall n ch skip hb geom r, r < n ->
+  (sec_at (dssp_frame n ch skip hb geom) r = SS_ALPHAHELIX <->
+   alpha_at n ch hb r /\ ~ i_at n ch skip hb r).
+Proof. exact Rules.helix_rule. Qed.
+Print Assumptions helix_rule.
+
+Theorem g_rule : forall n ch skip hb geom r, r < n ->
+  (sec_at (dssp_frame n ch skip hb geom) r = SS_HELIX_3 <-> g_at n ch skip hb r).
+Proof. exact Rules.g_rule. Qed.
+Print Assumptions g_rule.
+
+Theorem i_rule : forall n ch skip hb geom r, r < n ->
+  (sec_at (dssp_frame n ch skip hb geom) r = SS_HELIX_5 <-> i_at n ch skip hb r).
+Proof. exact Rules.i_rule. Qed.
+Print Assumptions i_rule.
+
+(* priority: G never inside H, I never over G *)
+Theorem helix_priority : forall n ch skip hb r,
+  (g_at n ch skip hb r -> ~ alpha_at n ch hb r) /\ (i_at n ch skip hb r -> ~ g_at n ch skip hb r).
+Proof. intros. split; [apply g_excludes_alpha | apply i_excludes_g]. Qed.
+Print Assumptions helix_priority.
+
+Theorem turn_bend_rule : forall n ch skip hb geom r, r < n ->
+  (sec_at (dssp_frame n ch skip hb geom) r = SS_TURN <->
+     1 <= r /\ r + 1 < n /\ skip_at skip r = false /\ plain n ch skip hb r /\ turn_inside n ch hb r) /\
+  (sec_at (dssp_frame n ch skip hb geom) r = SS_BEND <->
+     1 <= r /\ r + 1 < n /\ skip_at skip r = false /\ plain n ch skip hb r /\
+     ~ turn_inside n ch hb r /\ is_bend n ch skip geom r = true).
+Proof. exact Rules.turn_bend_rule. Qed.
+Print Assumptions turn_bend_rule.
+
+Theorem blank_rule : forall n ch skip hb geom r, r < n ->
+  (sec_at (dssp_frame n ch skip hb geom) r = SS_LOOP <->
+     plain n ch skip hb r /\
+     (r = 0 \/ n <= r + 1 \/ skip_at skip r = true \/
+      (~ turn_inside n ch hb r /\ is_bend n ch skip geom r = false))).
+Proof. exact Rules.blank_rule. Qed.
+Print Assumptions blank_rule.
+
+(* sheets: E and B are kept unless an alpha helix covers the residue *)
+Theorem sheet_survives_rule : forall n ch skip hb geom r c, r < n ->
+  (c = SS_STRAND \/ c = SS_BETABRIDGE) ->
+  (sec_at (dssp_frame n ch skip hb geom) r = c <-> sheet_code n ch skip hb r = c /\ ~ alpha_at n ch hb r).
+Proof. exact Rules.sheet_rule. Qed.
+Print Assumptions sheet_survives_rule.
+
+(* E / B from the final bridge list (bulge-merged ladders included): E iff covered by a record with
+   at least two bridges, B iff covered only by single bridges *)
+Theorem strand_marking : forall n ch skip hb r, r < n ->
+  sheet_code n ch skip hb r =
+  if existsb (fun b => covers b r && is_ladder b) (ladders n ch skip hb) then SS_STRAND
+  else if existsb (fun b => covers b r) (ladders n ch skip hb) then SS_BETABRIDGE else SS_LOOP.
+Proof. exact secB_at. Qed.
+Print Assumptions strand_marking.
+
+Theorem bridge_symmetric : forall i j n ch hb,
+  residue_test_bridge i j n ch hb = residue_test_bridge j i n ch hb.
+Proof. exact bridge_test_symmetric. Qed.
+Print Assumptions bridge_symmetric.
+
+(* every record built by the bridge loop is a run of consecutive residues paired one to one with a
+   run of consecutive partners, every pair passing the bridge test with the record's type *)
+Theorem bridge_records_are_ladders : forall n ch skip hb,
+  Forall (bridge_ok n ch skip hb) (initial_bridges n ch skip hb).
+Proof. exact initial_bridges_ok. Qed.
+Print Assumptions bridge_records_are_ladders.
+
+(* PARTIAL.  Full statement: "r is E iff r lies in a ladder of >= 2 consecutive bridges after bulge
+   merging, B iff it lies only in isolated bridges", with the ladder set characterised from the bridge
+   test alone.  Proved: the statement for H-bond patterns in which no two records qualify for bulge
+   merging (hypothesis below), together with strand_marking and bridge_records_are_ladders for the
+   general case.  Missing: a declarative characterisation of the merged ladder list (order-dependent
+   absorption in the "Extend ladders" loop) and completeness of the record list (every bridge pair is
+   in some record); both are exercised by the correspondence only. *)
+Theorem strand_vs_bridge_partial : forall n ch skip hb r, r < n ->
+  (forall a b, In a (initial_bridges n ch skip hb) -> In b (initial_bridges n ch skip hb) ->
+               should_merge ch a b = false) ->
+  (sheet_code n ch skip hb r = SS_STRAND <->
+     exists b, In b (initial_bridges n ch skip hb) /\ 2 <= List.length (b_i b) /\ member b r) /\
+  (sheet_code n ch skip hb r = SS_BETABRIDGE <->
+     (exists b, In b (initial_bridges n ch skip hb) /\ member b r) /\
+     ~ exists b, In b (initial_bridges n ch skip hb) /\ 2 <= List.length (b_i b) /\ member b r).
+Proof. exact sheet_rule_merge_free. Qed.
+Print Assumptions strand_vs_bridge_partial.
+
+(* incomplete residues: never a member of a bridge or ladder, never an end of an n-turn ... *)
+Theorem skip_never_pairs : forall n ch skip hb b x, In b (ladders n ch skip hb) ->
+  In x (b_i b) \/ In x (b_j b) -> skip_at skip x = false.
+Proof. exact Layer.skip_never_pairs. Qed.
+Print Assumptions skip_never_pairs.
+
+Theorem skip_never_turns : forall n ch skip hb s i, hb_respects_skip skip hb ->
+  turnb n ch hb s i = true -> skip_at skip i = false /\ skip_at skip (i + s) = false.
+Proof. exact skip_no_turn. Qed.
+Print Assumptions skip_never_turns.
+
+(* ... never T or S (turn_bend_rule), always shown as 'NA' and nothing else is ... *)
+Theorem na_overlay : forall simp n ch skip hb geom r, r < n ->
+  (nth r (compute_dssp simp n ch skip hb geom) "" = "NA" <-> skip_at skip r = true).
+Proof. exact Layer.na_overlay. Qed.
+Print Assumptions na_overlay.
+
+(* ... but at the C++ level "an incomplete residue keeps the blank code" is false: a helix or ladder
+   range fill covers it (hidden by the overlay above) *)
+Theorem skip_never_marked_refuted : exists n ch skip hb geom r,
+  hb_respects_skip skip hb /\ r < n /\ skip_at skip r = true /\
+  sec_at (dssp_frame n ch skip hb geom) r <> SS_LOOP.
+Proof. exact Layer.skip_never_marked_refuted. Qed.
+Print Assumptions skip_never_marked_refuted.
+
+(* the character switch and the simplified translation regenerated from today's source are the
+   fixed tables of the property, and simplified output is the image of the full output *)
+Theorem char_map : forall s, ss_char s = char_spec s.
+Proof. exact char_map_spec. Qed.
+Print Assumptions char_map.
+
+Theorem simplified_map : forall s, simplify (ss_char s) = simplified_spec s.
+Proof. exact simplified_map_spec. Qed.
+Print Assumptions simplified_map.
+
+Theorem simplified_is_image : forall n ch skip hb geom,
+  compute_dssp true n ch skip hb geom = map simplify_code (compute_dssp false n ch skip hb geom).
+Proof. exact Layer.simplified_is_image. Qed.
+Print Assumptions simplified_is_image.
+
+Theorem bend_threshold_is_70_degrees : bend_angle_degrees = 70.
+Proof. exact bend_angle_spec. Qed.
+Print Assumptions bend_threshold_is_70_degrees.
+
+(* ---------------------------------------------------------------- non-vacuity *)
+Definition ex_helix_hb : hbtable := map (fun d => if 4 <=? d then [d - 4] else []) (seq 0 12).
+Example helix_example :
+  dssp_chars 12 (repeat 0 12) (repeat false 12) ex_helix_hb (repeat false 12) =
+  [" "; "H"; "H"; "H"; "H"; "H"; "H"; "H"; "H"; "H"; "H"; " "].
+Proof. vm_compute. reflexivity. Qed.
+Print Assumptions helix_example.
+
+(* alpha_at is inhabited in that example *)
+Example alpha_at_example : alpha_at 12 (repeat 0 12) ex_helix_hb 3.
+Proof. exists 1. split; [|lia]. split; [lia|]. split; vm_compute; reflexivity. Qed.
+Print Assumptions alpha_at_example.
+
+(* an antiparallel hairpin 2-4 / 7-9: a ladder of three bridges, no merging possible *)
+Definition ex_hairpin_hb : hbtable := [[]; []; [9]; []; [7]; []; []; [4]; []; [2]; []; []].
+Example hairpin_example :
+  dssp_chars 12 (repeat 0 12) (repeat false 12) ex_hairpin_hb (repeat false 12) =
+  [" "; " "; "E"; "E"; "E"; "T"; "T"; "E"; "E"; "E"; " "; " "].
+Proof. vm_compute. reflexivity. Qed.
+Print Assumptions hairpin_example.
+
+Example merge_free_hypothesis_satisfiable :
+  initial_bridges 12 (repeat 0 12) (repeat false 12) ex_hairpin_hb <> [] /\
+  forall a b, In a (initial_bridges 12 (repeat 0 12) (repeat false 12) ex_hairpin_hb) ->
+              In b (initial_bridges 12 (repeat 0 12) (repeat false 12) ex_hairpin_hb) ->
+              should_merge (repeat 0 12) a b = false.
+Proof.
+  split; [vm_compute; discriminate|].
+  assert (H : forallb (fun a => forallb (fun b => negb (should_merge (repeat 0 12) a b))
+                 (initial_bridges 12 (repeat 0 12) (repeat false 12) ex_hairpin_hb))
+                 (initial_bridges 12 (repeat 0 12) (repeat false 12) ex_hairpin_hb) = true)
+    by (vm_compute; reflexivity).
+  intros a b Ha Hb. rewrite forallb_forall in H. specialize (H a Ha). rewrite forallb_forall in H.
+  specialize (H b Hb). now destruct (should_merge (repeat 0 12) a b).
+Qed.
+Print Assumptions merge_free_hypothesis_satisfiable.
+
+(* two antiparallel ladders (2-4 / 13-15 and 5-6 / 10-11) joined across a one-residue bulge at 12:
+   merged into one record, the bulge residue 12 is E too; 7-9 lie inside the 4-turn 10 -> 6 *)
+Definition ex_bulge_hb : hbtable :=
+  [[]; []; [15]; []; [13]; [11]; [10]; []; []; []; [6]; [5]; []; [4]; []; [2]; []; []].
+Example bulge_example :
+  dssp_chars 18 (repeat 0 18) (repeat false 18) ex_bulge_hb (repeat false 18) =
+  [" "; " "; "E"; "E"; "E"; "E"; "E"; "T"; "T"; "T"; "E"; "E"; "E"; "E"; "E"; "E"; " "; " "] /\
+  map (fun b => (b_i b, b_j b)) (ladders 18 (repeat 0 18) (repeat false 18) ex_bulge_hb) =
+  [([2; 3; 4; 5; 6], [10; 11; 13; 14; 15])].
+Proof. split; vm_compute; reflexivity. Qed.
+Print Assumptions bulge_example.
